@@ -197,7 +197,7 @@ theorem finish_inv {c : Cfg} {n : Node} (hi : Inv c n) {pb : Block}
       generalize hnb : ({ sh := { pb.sh with sig := Sig.by c.key (payload pb.sh.hdr) },
                           data := { pb.data with metadata := some { chainId := pb.sh.hdr.chainId, height := pb.sh.hdr.height, time := pb.sh.hdr.time, lastDataHash := ldh } },
                           savedSig := Sig.by c.key (payload pb.sh.hdr) } : Block) = nb
-      generalize hs1 : n.store.apply (.saveBlock pb.sh.hdr.height nb) = s1
+      generalize hs1 : (n.store.apply (.saveBlock pb.sh.hdr.height nb)).apply (.updateState _) = s1
       have hsh := applyAll_setHeightW s1 pb.sh.hdr.height
       generalize hs2 : s1.applyAll (setHeightW s1 pb.sh.hdr.height) = s2 at hsh
       obtain ⟨h2h, h2b, h2s, _⟩ := hsh
@@ -205,7 +205,7 @@ theorem finish_inv {c : Cfg} {n : Node} (hi : Inv c n) {pb : Block}
       have h2h' : s2.height = n.store.height + 1 := by
         rw [h2h, h1h, hH]; simp
       have hget : ∀ k, s2.getBlock k = if n.store.height + 1 = k then some nb else n.store.getBlock k := by
-        intro k; rw [h2b, ← hs1, getBlock_saveBlock, hH]
+        intro k; rw [h2b, ← hs1, getBlock_updateState, getBlock_saveBlock, hH]
       have hnbL : Linked c s2 (n.store.height + 1) nb := by
         subst hnb
         refine ⟨hH, rfl, rfl, hpo.signer, ?_, ?_, ?_, hpne, hmeta, ?_, ?_⟩
@@ -234,9 +234,9 @@ theorem finish_inv {c : Cfg} {n : Node} (hi : Inv c n) {pb : Block}
           · show pb.sh.hdr.appHash = _
             rw [hah, ha]
       refine ⟨hi.ihPos, ?_, ?_, ?_, ?_, ?_, ?_, ?_, ?_⟩
-      · show (s2.apply _).height = _
+      · show s2.height = _
         simp [nextState, h2h', hH]
-      · show c.initialHeight ≤ (s2.apply _).height + 1
+      · show c.initialHeight ≤ s2.height + 1
         simp [h2h']; have := hi.low; omega
       · simp [nextState, hi.cid]
       · intro h h1 h2
@@ -244,17 +244,17 @@ theorem finish_inv {c : Cfg} {n : Node} (hi : Inv c n) {pb : Block}
         by_cases heq : h = n.store.height + 1
         · subst heq
           refine ⟨nb, ?_, ?_⟩
-          · show (s2.apply _).getBlock _ = _
+          · show s2.getBlock _ = _
             simp [hget]
           · exact hnbL.mono (fun k _ => by simp)
         · obtain ⟨b, hb, hl⟩ := hi.chain h h1 (by omega)
           refine ⟨b, ?_, ?_⟩
-          · show (s2.apply _).getBlock _ = _
+          · show s2.getBlock _ = _
             have hne : ¬ n.store.height + 1 = h := by omega
             simp [hget, hne, hb]
           · apply hl.mono
             intro k hk
-            show (s2.apply _).getBlock _ = _
+            show s2.getBlock _ = _
             have hne : ¬ n.store.height + 1 = k := by omega
             simp [hget, hne]
       · intro heq
@@ -264,20 +264,20 @@ theorem finish_inv {c : Cfg} {n : Node} (hi : Inv c n) {pb : Block}
         omega
       · intro _
         refine ⟨nb, ?_, ?_, ?_⟩
-        · show (s2.apply _).getBlock (s2.apply _).height = _
+        · show s2.getBlock s2.height = _
           simp [hget, h2h']
         · subst hnb; simp [nextState]
         · subst hnb; simp [nextState, hah]
       · intro pb' hpb'
         exfalso
-        have hx : (s2.apply (.updateState { nextState n.lastState pb.sh.hdr (execRoot n.lastState.appHash pb.data.txs) with daHeight := n.daHeight })).getBlock (n.store.height + 1 + 1) = some pb' := by
+        have hx : s2.getBlock (n.store.height + 1 + 1) = some pb' := by
           simpa [h2h'] using hpb'
         simp [hget] at hx
         rw [hi.above _ (by omega)] at hx
         simp at hx
       · intro h hgt
         have hgt' : h > n.store.height + 1 + 1 := by simpa [h2h'] using hgt
-        show (s2.apply _).getBlock h = none
+        show s2.getBlock h = none
         have hne : ¬ n.store.height + 1 = h := by omega
         simp [hget, hne]
         exact hi.above h (by omega)
@@ -365,16 +365,16 @@ theorem finish_store {c : Cfg} {n : Node} (ws : List SW) (sh : SHeader) (d : Dat
     split
     · exact ⟨Or.inl rfl, fun _ _ => rfl⟩
     · simp only [hh]
-      generalize hs1 : n.store.apply (.saveBlock (n.store.height + 1) _) = s1
+      generalize hs1 : (n.store.apply (.saveBlock (n.store.height + 1) _)).apply (.updateState _) = s1
       have h1h : s1.height = n.store.height := by rw [← hs1]; rfl
       obtain ⟨a1, a2, _, _⟩ := applyAll_setHeightW s1 (n.store.height + 1)
       constructor
       · right
-        show (Store.apply _ _).height = _
+        show (Store.applyAll _ _).height = _
         simp [a1, h1h]
       · intro k hk
-        show (Store.apply _ _).getBlock k = _
-        rw [getBlock_updateState, a2, ← hs1]
+        show (Store.applyAll _ _).getBlock k = _
+        rw [a2, ← hs1, getBlock_updateState]
         exact getBlock_saveBlock_other _ _ _ _ (by omega)
 
 theorem buildAndFinish_store {c : Cfg} {n0 : Node} (w0 : SW) (ls : Sig) (lhh ldh : Bytes)
@@ -423,17 +423,51 @@ def genesisState (c : Cfg) : State :=
   { chainId := c.chainId, initialHeight := c.initialHeight, lastHeight := c.initialHeight - 1,
     lastTime := c.genesisTime, appHash := c.genesisRoot, daHeight := 0 }
 
+/-- the write by which `start` raises a submission watermark that reads `w` to `initialHeight - 1` -/
+def wmWrite (c : Cfg) (key : String) (w : Nat) : List SW :=
+  if c.initialHeight > 1 ∧ c.initialHeight - 1 > w then [.setMeta key (le64 (c.initialHeight - 1))] else []
+
+/-- … and the watermark the node then holds in memory -/
+def wmRaise (c : Cfg) (w : Nat) : Nat :=
+  if c.initialHeight > 1 ∧ c.initialHeight - 1 > w then c.initialHeight - 1 else w
+
+theorem le64_length (x : Nat) : (le64 x).length = 8 := by
+  have : ∀ n x, (Bytes.le n x).length = n := by
+    intro n
+    induction n with
+    | zero => intro x; rfl
+    | succ n ih => intro x; simp [Bytes.le, ih]
+  exact this 8 x
+
+/-- a watermark write changes nothing but the metadata under its key -/
+theorem wmWrite_facts (c : Cfg) (d : Store) (key : String) (w : Nat) :
+    (d.applyAll (wmWrite c key w)).height = d.height ∧
+    (∀ k, (d.applyAll (wmWrite c key w)).getBlock k = d.getBlock k) ∧
+    (d.applyAll (wmWrite c key w)).state = d.state ∧
+    (∀ k, k ≠ key → (d.applyAll (wmWrite c key w)).getMeta k = d.getMeta k) ∧
+    (d.applyAll (wmWrite c key w)).getMeta key = (if c.initialHeight > 1 ∧ c.initialHeight - 1 > w
+      then some (le64 (c.initialHeight - 1)) else d.getMeta key) := by
+  unfold wmWrite
+  split
+  · refine ⟨rfl, fun _ => rfl, rfl, fun k hk => ?_, ?_⟩
+    · have hne : ¬ key = k := fun h => hk h.symm
+      simp [Store.applyAll, Store.apply, Store.getMeta, hne]
+    · simp [Store.applyAll, Store.apply, Store.getMeta]
+  · exact ⟨rfl, fun _ => rfl, rfl, fun _ _ => rfl, rfl⟩
+
 def freshDisk (c : Cfg) : Store :=
   let d1 := ({} : Store).apply (.saveBlock c.initialHeight (genesisBlock c))
-  d1.applyAll (setHeightW d1 (c.initialHeight - 1))
+  ((d1.applyAll (setHeightW d1 (c.initialHeight - 1))).applyAll (wmWrite c hdrWmKey 0)).applyAll (wmWrite c dataWmKey 0)
 
+/-- the node `NewManager` builds on an empty disk -/
 def freshNode (c : Cfg) : Node :=
-  { store := freshDisk c, lastState := genesisState c, lastBatchData := [], hdrWm := 0, dataWm := 0, daHeight := 0 }
+  { store := freshDisk c, lastState := genesisState c, lastBatchData := [], hdrWm := wmRaise c 0, dataWm := wmRaise c 0,
+    daHeight := 0 }
 
 theorem freshDisk_facts (c : Cfg) :
     (freshDisk c).height = c.initialHeight - 1 ∧
     (∀ k, (freshDisk c).getBlock k = if c.initialHeight = k then some (genesisBlock c) else none) ∧
-    (freshDisk c).kv = [] ∧ (freshDisk c).state = none := by
+    (∀ k, k ≠ hdrWmKey → k ≠ dataWmKey → (freshDisk c).getMeta k = none) ∧ (freshDisk c).state = none := by
   unfold freshDisk
   simp only
   generalize hd1' : (({} : Store).apply (.saveBlock c.initialHeight (genesisBlock c))) = d1
@@ -443,27 +477,51 @@ theorem freshDisk_facts (c : Cfg) :
   have hd1kv : d1.kv = [] := by rw [← hd1']; rfl
   have hd1s : d1.state = none := by rw [← hd1']; rfl
   obtain ⟨a1, a2, a3, a4⟩ := applyAll_setHeightW d1 (c.initialHeight - 1)
-  refine ⟨?_, fun k => by rw [a2, hd1], by rw [a4, hd1kv], by rw [a3, hd1s]⟩
-  rw [a1, hd1h]; split <;> omega
+  generalize d1.applyAll (setHeightW d1 (c.initialHeight - 1)) = d2 at a1 a2 a3 a4
+  obtain ⟨b1, b2, b3, b4, _⟩ := wmWrite_facts c d2 hdrWmKey 0
+  generalize d2.applyAll (wmWrite c hdrWmKey 0) = d3 at b1 b2 b3 b4
+  obtain ⟨e1, e2, e3, e4, _⟩ := wmWrite_facts c d3 dataWmKey 0
+  refine ⟨?_, fun k => by rw [e2, b2, a2, hd1], fun k h1 h2 => ?_, by rw [e3, b3, a3, hd1s]⟩
+  · rw [e1, b1, a1, hd1h]; split <;> omega
+  · rw [e4 k h2, b4 k h1]; simp [Store.getMeta, a4, hd1kv]
+
+theorem wmRaise_zero (c : Cfg) : wmRaise c 0 = c.initialHeight - 1 := by
+  unfold wmRaise; split <;> omega
+
+/-- both submission watermarks of a fresh node stand at `initialHeight - 1` -/
+theorem freshNode_wm (c : Cfg) : (freshNode c).hdrWm = c.initialHeight - 1 ∧ (freshNode c).dataWm = c.initialHeight - 1 :=
+  ⟨wmRaise_zero c, wmRaise_zero c⟩
 
 def freshWrites (c : Cfg) : List SW :=
   [SW.saveBlock c.initialHeight (genesisBlock c)] ++
-    setHeightW (({} : Store).apply (.saveBlock c.initialHeight (genesisBlock c))) (c.initialHeight - 1)
+    setHeightW (({} : Store).apply (.saveBlock c.initialHeight (genesisBlock c))) (c.initialHeight - 1) ++
+    wmWrite c hdrWmKey 0 ++ wmWrite c dataWmKey 0
 
 theorem start_empty (c : Cfg) : start c {} = .ok (freshNode c, freshWrites c) := by
   obtain ⟨_, _, hkv, _⟩ := freshDisk_facts c
-  have hwm : ∀ k, wmOf (freshDisk c) k = some 0 := by
-    intro k; simp [wmOf, Store.getMeta, hkv]
-  have hm : (freshDisk c).getMeta lastBatchDataKey = none := by simp [Store.getMeta, hkv]
+  have hm : (freshDisk c).getMeta lastBatchDataKey = none := hkv _ (by decide) (by decide)
+  generalize hd2 : (({} : Store).apply (.saveBlock c.initialHeight (genesisBlock c))).applyAll
+      (setHeightW (({} : Store).apply (.saveBlock c.initialHeight (genesisBlock c))) (c.initialHeight - 1)) = d2
+  have hd2kv : d2.kv = [] := by
+    rw [← hd2, (applyAll_setHeightW _ _).2.2.2]; rfl
+  have hwm : ∀ k, wmOf d2 k = some 0 := by
+    intro k; simp [wmOf, Store.getMeta, hd2kv]
+  have hfd : freshDisk c = (d2.applyAll (wmWrite c hdrWmKey 0)).applyAll (wmWrite c dataWmKey 0) := by
+    rw [← hd2]; rfl
   unfold start
   simp only []
-  show (match wmOf (freshDisk c) hdrWmKey, wmOf (freshDisk c) dataWmKey with
+  rw [hd2]
+  show (match wmOf d2 hdrWmKey, wmOf d2 dataWmKey with
         | some hw, some dw => _ | _, _ => _) = _
   rw [hwm, hwm]
-  have hm' : (((({} : Store).apply (SW.saveBlock c.initialHeight (genesisBlock c))).applyAll
-      (setHeightW (({} : Store).apply (SW.saveBlock c.initialHeight (genesisBlock c))) (c.initialHeight - 1))).getMeta
-      lastBatchDataKey) = none := hm
-  simp [hm', freshNode, freshDisk, genesisState, freshWrites]
+  simp only
+  have hm' : ((d2.applyAll (wmWrite c hdrWmKey 0)).applyAll (wmWrite c dataWmKey 0)).getMeta lastBatchDataKey = none := by
+    rw [← hfd]; exact hm
+  have hm'' := hm'
+  unfold wmWrite at hm''
+  rw [hm'']
+  simp only [freshNode, hfd, genesisState, freshWrites, wmWrite, wmRaise, hd2]
+  simp
 
 theorem freshNode_inv (c : Cfg) (hpos : 1 ≤ c.initialHeight) : Inv c (freshNode c) := by
   obtain ⟨hh, hg, hkv, hst⟩ := freshDisk_facts c
@@ -562,12 +620,307 @@ theorem fresh_commits {c : Cfg} {n : Node} (hi : Inv c n) (hnone : n.store.getBl
   rw [hval]
   refine ⟨rfl, ?_⟩
   simp only
-  show (Store.apply _ _).height = _
-  rw [height_updateState]
-  generalize hs1 : Store.apply _ (.saveBlock (signed c (createBlock c n.lastState (n.store.height + 1) ls lhh txs ts).1).hdr.height _) = s1
+  show (Store.applyAll _ _).height = _
+  generalize hs1 : Store.apply (Store.apply _ (.saveBlock (signed c (createBlock c n.lastState (n.store.height + 1) ls lhh txs ts).1).hdr.height _)) (.updateState _) = s1
   have h1h : s1.height = n.store.height := by rw [← hs1]; rfl
   obtain ⟨a1, _⟩ := applyAll_setHeightW s1 (signed c (createBlock c n.lastState (n.store.height + 1) ls lhh txs ts).1).hdr.height
   rw [a1, h1h]
   simp [signed, createBlock]
+
+
+/-! ### liveness for every reachable node: a block waiting at `height + 1` is always committable
+
+`Live` strengthens `Inv` by what `execValidate` will ask of the block stored at `height + 1` once it is signed and
+given its metadata.  Every block the node saves there has these properties: the genesis block written at start-up,
+and a block built by `fresh` — for the timestamp this is what the monotonicity guard (now applied to empty batches
+too) guarantees.  Hence "using pending block" can never fail validation, and one well-formed answer commits. -/
+
+/-- what `execValidate` will ask of a block waiting at `height + 1` (early-saved with `metadata = none`, final-saved,
+or the genesis block), beyond its shape `PendingOK` -/
+structure PendValid (c : Cfg) (st : State) (pb : Block) : Prop where
+  chainId : pb.sh.hdr.chainId = c.chainId
+  appHash : pb.sh.hdr.appHash = st.appHash
+  proposer : pb.sh.hdr.proposerAddress = c.proposerAddr
+  dataHash : pb.data.daCommitment = pb.sh.hdr.dataHash
+  time : pb.sh.hdr.height > 1 → st.lastTime ≤ pb.sh.hdr.time
+
+/-- the reachable-state invariant: `Inv`, the block waiting at `height + 1` (if any) will validate, and before
+the first commit a block *is* stored at the initial height (the genesis block or a re-save of it) -/
+structure Live (c : Cfg) (n : Node) : Prop extends Inv c n where
+  pendValid : ∀ pb, n.store.getBlock (n.store.height + 1) = some pb → PendValid c n.lastState pb
+  firstStored : n.store.height + 1 = c.initialHeight → ∃ pb, n.store.getBlock c.initialHeight = some pb
+
+/-- `Live` only looks at the store and the last state -/
+theorem Live.congr {c : Cfg} {n n' : Node} (hl : Live c n) (hs : n'.store = n.store) (hst : n'.lastState = n.lastState) :
+    Live c n' := by
+  obtain ⟨⟨a1, a2, a3, a4, a5, a6, a7, a8, a9⟩, b1, b2⟩ := hl
+  refine ⟨⟨a1, ?_, ?_, ?_, ?_, ?_, ?_, ?_, ?_⟩, ?_, ?_⟩
+  all_goals (try rw [hs]); (try rw [hst]); assumption
+
+theorem live_setMeta {c : Cfg} {n : Node} (hl : Live c n) (k : String) (v : Bytes) (bd : List Bytes) :
+    Live c { n with store := n.store.apply (.setMeta k v), lastBatchData := bd } :=
+  ⟨inv_setMeta hl.toInv k v bd, hl.pendValid, hl.firstStored⟩
+
+theorem live_early {c : Cfg} {n : Node} (hl : Live c n) (sh : SHeader) (d : Data)
+    (hh : sh.hdr.height = n.store.height + 1) (hs : sh.signer = mySigner c)
+    (hlk : n.store.height + 1 > c.initialHeight → ∃ p, n.store.getBlock n.store.height = some p ∧
+      sh.hdr.lastHeaderHash = p.sh.hdr.hash) (sv : Sig)
+    (hv : PendValid c n.lastState { sh := sh, data := d, savedSig := sv }) :
+    Live c { n with store := n.store.apply (.saveBlock (n.store.height + 1) { sh := sh, data := d, savedSig := sv }) } := by
+  refine ⟨inv_early hl.toInv sh d hh hs hlk sv, ?_, ?_⟩
+  · intro pb hpb
+    have hpb' : (n.store.apply (.saveBlock (n.store.height + 1) { sh := sh, data := d, savedSig := sv })).getBlock
+        (n.store.height + 1) = some pb := hpb
+    rw [getBlock_saveBlock_same] at hpb'
+    simp only [Option.some.injEq] at hpb'
+    subst hpb'
+    exact hv
+  · intro heq
+    have heq' : n.store.height + 1 = c.initialHeight := heq
+    refine ⟨{ sh := sh, data := d, savedSig := sv }, ?_⟩
+    show (n.store.apply _).getBlock c.initialHeight = _
+    rw [← heq']
+    exact getBlock_saveBlock_same _ _ _
+
+/-- the finishing part of a step either changes nothing (outcome ≠ ok) or raises the height by one and touches
+no block except the one at `height + 1` -/
+theorem finish_frame {c : Cfg} {n : Node} (ws : List SW) (sh : SHeader) (d : Data) (ldh : Bytes) (ex : ExecResp)
+    (hh : sh.hdr.height = n.store.height + 1) :
+    ((finish c n ws sh d ldh ex).1 = n ∧ (finish c n ws sh d ldh ex).2.2 ≠ .ok) ∨
+    ((finish c n ws sh d ldh ex).1.store.height = n.store.height + 1 ∧
+     (∀ k, k ≠ n.store.height + 1 → (finish c n ws sh d ldh ex).1.store.getBlock k = n.store.getBlock k) ∧
+     (finish c n ws sh d ldh ex).2.2 = .ok) := by
+  unfold finish
+  cases ex with
+  | fail => exact Or.inl ⟨rfl, by simp⟩
+  | ok =>
+    simp only [signed, withMeta]
+    split
+    · exact Or.inl ⟨rfl, by simp⟩
+    · simp only [hh]
+      generalize hs1 : (n.store.apply (.saveBlock (n.store.height + 1) _)).apply (.updateState _) = s1
+      have h1h : s1.height = n.store.height := by rw [← hs1]; rfl
+      obtain ⟨a1, a2, _, _⟩ := applyAll_setHeightW s1 (n.store.height + 1)
+      refine Or.inr ⟨?_, ?_, by simp⟩
+      · show (Store.applyAll _ _).height = _
+        simp [a1, h1h]
+      · intro k hk
+        show (Store.applyAll _ _).getBlock k = _
+        rw [a2, ← hs1, getBlock_updateState]
+        exact getBlock_saveBlock_other _ _ _ _ (Ne.symm hk)
+
+theorem finish_live {c : Cfg} {n : Node} (hl : Live c n) {pb : Block}
+    (hpb : n.store.getBlock (n.store.height + 1) = some pb) (ws : List SW) (ldh : Bytes) (ex : ExecResp) :
+    Live c (finish c n ws pb.sh pb.data ldh ex).1 := by
+  have hi' := finish_inv hl.toInv hpb ws ldh ex
+  rcases finish_frame (c := c) ws pb.sh pb.data ldh ex (hl.pend pb hpb).height with ⟨h1, _⟩ | ⟨h1, h2, _⟩
+  · rw [h1]; exact hl
+  · refine ⟨hi', ?_, ?_⟩
+    · intro pb' hpb'
+      exfalso
+      rw [h1, h2 _ (by omega), hl.above _ (by omega)] at hpb'
+      cases hpb'
+    · intro heq
+      exfalso
+      rw [h1] at heq
+      have := hl.low
+      omega
+
+theorem validateData_withMeta (sh : SHeader) (d : Data) (ldh : Bytes) (h : d.daCommitment = sh.hdr.dataHash) :
+    validateData sh (withMeta d sh.hdr ldh) = none := by
+  have hm : ∀ m, ({ d with metadata := m } : Data).daCommitment = d.daCommitment := fun _ => rfl
+  simp [validateData, withMeta, hm, h]
+
+/-- a block waiting at `height + 1` that satisfies `PendValid` passes `execValidate` once signed and given its
+metadata -/
+theorem pending_validates {c : Cfg} {st : State} {pb : Block} (hs : pb.sh.signer = mySigner c)
+    (hh : pb.sh.hdr.height = st.lastHeight + 1) (hc : st.chainId = c.chainId) (hv : PendValid c st pb)
+    (hne : c.proposerAddr ≠ []) (ldh : Bytes) :
+    execValidate st (signed c pb.sh) (withMeta pb.data pb.sh.hdr ldh) = none := by
+  unfold execValidate
+  have hvb : validateBasic (signed c pb.sh) = none := by
+    unfold validateBasic
+    simp [signed, hv.proposer, hne, Sig.isEmpty, hs, mySigner, verify_by]
+  rw [hvb]
+  have hvd : validateData (signed c pb.sh) (withMeta pb.data pb.sh.hdr ldh) = none :=
+    validateData_withMeta (signed c pb.sh) pb.data ldh hv.dataHash
+  rw [hvd]
+  have e1 : pb.sh.hdr.chainId = st.chainId := by rw [hv.chainId, hc]
+  have e3 : ¬ (pb.sh.hdr.height > 1 ∧ pb.sh.hdr.time < st.lastTime) := by
+    intro ⟨h1, h2⟩
+    have := hv.time h1
+    omega
+  rw [hh] at e3
+  simp only [signed, e1, hh, hv.appHash, e3, ne_eq, not_true_eq_false, ↓reduceIte]
+
+/-- "using pending block": with a valid block waiting at `height + 1`, successful execution commits it -/
+theorem finish_commits {c : Cfg} {n : Node} (hi : Inv c n) {pb : Block} (hpo : PendingOK c n.store pb)
+    (hv : PendValid c n.lastState pb) (hne : c.proposerAddr ≠ []) (ws : List SW) (ldh : Bytes) :
+    (finish c n ws pb.sh pb.data ldh .ok).2.2 = .ok ∧
+    (finish c n ws pb.sh pb.data ldh .ok).1.store.height = n.store.height + 1 := by
+  have hval := pending_validates hpo.signer (by rw [hpo.height, hi.hs]) hi.cid hv hne ldh
+  rcases finish_frame (c := c) ws pb.sh pb.data ldh .ok hpo.height with ⟨_, h2⟩ | ⟨h1, _, h3⟩
+  · exfalso
+    apply h2
+    unfold finish
+    simp only [hval]
+  · exact ⟨h3, h1⟩
+
+/-- above the first height the step knows the time of the last header, and the guard compares with it -/
+theorem prevInfo_time {c : Cfg} {n : Node} (hi : Inv c n) (hgt : n.store.height + 1 > c.initialHeight)
+    {ls : Sig} {lhh ldh : Bytes} {lht : Option Nat} (h : prevInfo c n.store = some (ls, lhh, ldh, lht))
+    (ts : Nat) (hreg : regressed lht ts = false) : n.lastState.lastTime ≤ ts := by
+  unfold prevInfo at h
+  have : ¬ n.store.height + 1 ≤ c.initialHeight := by omega
+  simp only [this, ↓reduceIte] at h
+  obtain ⟨b, hb, ht, _⟩ := hi.tip (by omega)
+  rw [hb] at h
+  simp only [Option.some.injEq, Prod.mk.injEq] at h
+  obtain ⟨_, _, _, h4⟩ := h
+  subst h4
+  simp only [regressed, decide_eq_false_iff_not] at hreg
+  omega
+
+theorem buildAndFinish_live {c : Cfg} {n0 : Node} (h0 : Live c n0) (w0 : SW) (ls : Sig) (lhh ldh : Bytes)
+    (hl : n0.store.height + 1 > c.initialHeight → ∃ p, n0.store.getBlock n0.store.height = some p ∧ lhh = p.sh.hdr.hash)
+    (txs : List Bytes) (ts : Nat) (hts : n0.store.height + 1 > 1 → n0.lastState.lastTime ≤ ts) (ex : ExecResp) :
+    Live c (buildAndFinish c n0 w0 ls lhh ldh txs ts ex).1 := by
+  unfold buildAndFinish
+  obtain ⟨f1, f2, f3, f4, f5, f6, f7, f8, f9⟩ := createBlock_facts c n0.lastState (n0.store.height + 1) ls lhh txs ts
+  have f10 : (createBlock c n0.lastState (n0.store.height + 1) ls lhh txs ts).2.daCommitment =
+      (createBlock c n0.lastState (n0.store.height + 1) ls lhh txs ts).1.hdr.dataHash := by
+    simp only [createBlock]; exact daCommitment_txs txs none
+  generalize createBlock c n0.lastState (n0.store.height + 1) ls lhh txs ts = blk at f1 f2 f3 f4 f5 f6 f7 f8 f9 f10
+  have h1 := live_early h0 blk.1 blk.2 f1 f2
+    (by intro hgt; obtain ⟨p, hp, hq⟩ := hl hgt; exact ⟨p, hp, by rw [f3]; exact hq⟩) .none
+    ⟨by show blk.1.hdr.chainId = _; rw [f6, h0.cid], f5, f7, f10,
+     by intro hgt; show _ ≤ blk.1.hdr.time; rw [f4]; apply hts; rw [← f1]; exact hgt⟩
+  exact finish_live h1 (pb := Block.mk blk.1 blk.2 .none)
+    (by show (n0.store.apply _).getBlock ((n0.store.apply _).height + 1) = _
+        simp) _ ldh ex
+
+theorem fresh_live {c : Cfg} {n : Node} (hl : Live c n)
+    (ls : Sig) (lhh ldh : Bytes) (lht : Option Nat)
+    (hlk : n.store.height + 1 > c.initialHeight → ∃ p, n.store.getBlock n.store.height = some p ∧ lhh = p.sh.hdr.hash)
+    (htime : ∀ ts, regressed lht ts = false → n.lastState.lastTime ≤ ts)
+    (resp : SeqResp) (ex : ExecResp) : Live c (fresh c n ls lhh ldh lht resp ex).1 := by
+  unfold fresh
+  cases resp with
+  | err => exact hl
+  | absent => exact hl
+  | batch txs ts bd =>
+    have h0 := live_setMeta hl lastBatchDataKey (batchDataToBytes bd) bd
+    simp only
+    split
+    · exact h0
+    · rename_i hreg
+      split
+      · exact h0
+      · exact buildAndFinish_live h0 _ ls lhh ldh hlk txs ts (fun _ => htime ts (by simpa using hreg)) ex
+
+/-- **One production step preserves `Live`**, whatever the sequencing and execution layers answer. -/
+theorem publish_live {c : Cfg} {n : Node} (hl : Live c n) (resp : SeqResp) (ex : ExecResp) :
+    Live c (publish c n resp ex).1 := by
+  unfold publish
+  split
+  · exact hl
+  · split
+    · exact hl
+    · rename_i ls lhh ldh lht hprev
+      split
+      · rename_i pb hpb
+        exact finish_live hl hpb [] ldh ex
+      · rename_i hnone
+        have hgt : n.store.height + 1 > c.initialHeight := by
+          have := hl.low
+          by_cases heq : n.store.height + 1 = c.initialHeight
+          · obtain ⟨pb, hpb⟩ := hl.firstStored heq
+            rw [← heq, hnone] at hpb; cases hpb
+          · omega
+        exact fresh_live hl ls lhh ldh lht (prevInfo_link hprev) (prevInfo_time hl.toInv hgt hprev) resp ex
+
+theorem run_live {c : Cfg} {n : Node} (hl : Live c n) (rs : List (SeqResp × ExecResp)) : Live c (run c n rs) := by
+  induction rs generalizing n with
+  | nil => exact hl
+  | cons r rs ih => exact ih (publish_live hl r.1 r.2)
+
+/-- the genesis block will validate against the genesis state -/
+theorem genesis_pendValid (c : Cfg) : PendValid c (genesisState c) (genesisBlock c) :=
+  ⟨rfl, rfl, rfl, rfl, fun _ => Nat.le_refl _⟩
+
+theorem freshNode_live (c : Cfg) (hpos : 1 ≤ c.initialHeight) : Live c (freshNode c) := by
+  obtain ⟨hh, hg, _, _⟩ := freshDisk_facts c
+  refine ⟨freshNode_inv c hpos, ?_, ?_⟩
+  · intro pb hpb
+    have hpb' : (freshDisk c).getBlock ((freshDisk c).height + 1) = some pb := hpb
+    rw [hh, hg, if_pos (by omega)] at hpb'
+    simp only [Option.some.injEq] at hpb'
+    subst hpb'
+    exact genesis_pendValid c
+  · intro _
+    exact ⟨genesisBlock c, by show (freshDisk c).getBlock _ = _; rw [hg, if_pos rfl]⟩
+
+/-- **Liveness from every `Live` node**: one well-formed answer (a batch not timestamped before the last block,
+executed successfully) commits a block — the block waiting at `height + 1` if there is one, a fresh one otherwise. -/
+theorem live_commits {c : Cfg} {n : Node} (hl : Live c n)
+    (hmax : c.maxPending = 0) (hsg : c.signerAddr = c.proposerAddr) (hne : c.proposerAddr ≠ [])
+    (txs : List Bytes) (ts : Nat) (bd : List Bytes) (hts : n.lastState.lastTime ≤ ts) :
+    (publish c n (.batch txs ts bd) .ok).2.2 = .ok ∧
+    (publish c n (.batch txs ts bd) .ok).1.store.height = n.store.height + 1 := by
+  cases hpend : n.store.getBlock (n.store.height + 1) with
+  | none => exact fresh_commits hl.toInv hpend hmax hsg hne txs ts bd hts
+  | some pb =>
+    have hnr : pendingRefuses c n = false := by simp [pendingRefuses, hmax]
+    have hprev : ∃ x, prevInfo c n.store = some x := by
+      unfold prevInfo
+      by_cases hfirst : n.store.height + 1 ≤ c.initialHeight
+      · exact ⟨_, by rw [if_pos hfirst]⟩
+      · obtain ⟨b, hb, _⟩ := hl.tip (by omega)
+        exact ⟨_, by rw [if_neg hfirst, hb]⟩
+    obtain ⟨⟨ls, lhh, ldh, lht⟩, hp⟩ := hprev
+    unfold publish
+    simp only [hnr, Bool.false_eq_true, ↓reduceIte, hp, hpend]
+    exact finish_commits hl.toInv (hl.pend pb hpend) (hl.pendValid pb hpend) hne [] ldh
+
+/-- `Live` only looks at the chain height, the stored blocks and the last state -/
+theorem Live.of_same {c : Cfg} {n n' : Node} (hl : Live c n) (hh : n'.store.height = n.store.height)
+    (hb : ∀ k, n'.store.getBlock k = n.store.getBlock k) (hst : n'.lastState = n.lastState) : Live c n' := by
+  refine ⟨Inv.of_agree hl.toInv hh hst (fun k _ => hb k) ?_ (fun k hk => by rw [hb]; exact hl.above k hk), ?_, ?_⟩
+  · intro pb hpb
+    rw [hb] at hpb
+    have := hl.pend pb hpb
+    refine ⟨by rw [hh]; exact this.height, this.signer, ?_⟩
+    intro hgt
+    rw [hh] at hgt
+    obtain ⟨p, hp, r⟩ := this.link hgt
+    exact ⟨p, by rw [hh, hb]; exact hp, r⟩
+  · intro pb hpb
+    rw [hh, hb] at hpb
+    rw [hst]; exact hl.pendValid pb hpb
+  · intro heq
+    rw [hh] at heq
+    obtain ⟨pb, hpb⟩ := hl.firstStored heq
+    exact ⟨pb, by rw [hb]; exact hpb⟩
+
+/-- the block `fresh` saves early will validate: this is where the timestamp guard is used -/
+theorem createBlock_pendValid {c : Cfg} {st : State} (hc : st.chainId = c.chainId) (h : Nat) (ls : Sig) (lhh : Bytes)
+    (txs : List Bytes) (ts : Nat) (hts : h > 1 → st.lastTime ≤ ts) (sv : Sig) :
+    PendValid c st { sh := (createBlock c st h ls lhh txs ts).1, data := (createBlock c st h ls lhh txs ts).2, savedSig := sv } := by
+  refine ⟨?_, rfl, rfl, ?_, hts⟩
+  · show st.chainId = c.chainId; exact hc
+  · simp only [createBlock]; exact daCommitment_txs txs none
+
+/-- when nothing is stored at `height + 1` the node is past its first block, so the step knows the time of the last
+header and the guard `regressed` compares the batch time with the state's time -/
+theorem fresh_branch {c : Cfg} {n : Node} (hl : Live c n) (hnone : n.store.getBlock (n.store.height + 1) = none)
+    {ls : Sig} {lhh ldh : Bytes} {lht : Option Nat} (hprev : prevInfo c n.store = some (ls, lhh, ldh, lht)) :
+    n.store.height + 1 > c.initialHeight ∧ ∀ ts, regressed lht ts = false → n.lastState.lastTime ≤ ts := by
+  have hgt : n.store.height + 1 > c.initialHeight := by
+    have := hl.low
+    by_cases heq : n.store.height + 1 = c.initialHeight
+    · obtain ⟨pb, hpb⟩ := hl.firstStored heq
+      rw [← heq, hnone] at hpb; cases hpb
+    · omega
+  exact ⟨hgt, prevInfo_time hl.toInv hgt hprev⟩
 
 end Producer
